@@ -102,3 +102,93 @@ func TestReplaySearchDeletedSurvivesStoreLoad(t *testing.T) {
 		}
 	}
 }
+
+// F28: a COUNT or LENGTH field of a record (not of a string) far beyond the data that follows: the loader must not allocate
+// what the field says. Streams are built field by field in the binary format (strings = u64 length + bytes, integers = u64 LE).
+func TestReplaySearchLoaderCountAlloc(t *testing.T) {
+	str := func(b *bytes.Buffer, s string) {
+		l := make([]byte, 8)
+		binary.LittleEndian.PutUint64(l, uint64(len(s)))
+		b.Write(l)
+		b.WriteString(s)
+	}
+	u64 := func(b *bytes.Buffer, v uint64) {
+		l := make([]byte, 8)
+		binary.LittleEndian.PutUint64(l, v)
+		b.Write(l)
+	}
+	head := func(kind uint64) *bytes.Buffer {
+		b := &bytes.Buffer{}
+		str(b, Version)
+		str(b, "n")
+		str(b, "v")
+		u64(b, 1) // one record
+		str(b, "k")
+		u64(b, kind)
+		str(b, "k")
+		str(b, "g")
+		str(b, "s")
+		return b
+	}
+	type tc struct {
+		name string
+		in   []byte
+	}
+	var cases []tc
+	for _, claimed := range []uint64{1 << 22, 1 << 24} {
+		b := head(uint64(TypeConstant))
+		u64(b, uint64(TypeInteger))
+		u64(b, claimed*16)
+		cases = append(cases, tc{fmt.Sprintf("ConstantMeta value-bytes length %d", claimed*16), b.Bytes()})
+		b = head(uint64(TypeArgumentList))
+		u64(b, claimed)
+		cases = append(cases, tc{fmt.Sprintf("ArgumentListMeta count %d", claimed), b.Bytes()})
+		b = head(uint64(TypeThenExpressionList))
+		u64(b, claimed)
+		cases = append(cases, tc{fmt.Sprintf("ThenExpressionListMeta count %d", claimed), b.Bytes()})
+		// a string constant whose inner length claims more than its value bytes hold (rebuilt by BuildKnowledgeBase)
+		b = head(uint64(TypeConstant))
+		u64(b, uint64(TypeString))
+		u64(b, 8)
+		u64(b, claimed*16)
+		b.WriteByte(0) // IsNil
+		str(b, "mn")
+		str(b, "mv")
+		for i := 0; i < 5; i++ {
+			u64(b, 0)
+		}
+		cases = append(cases, tc{fmt.Sprintf("string constant inner length %d", claimed*16), b.Bytes()})
+		// the two working-memory index readers: no records, three empty snapshot maps, one index entry with a huge count
+		for idx := 0; idx < 2; idx++ {
+			b = &bytes.Buffer{}
+			str(b, Version)
+			str(b, "n")
+			str(b, "v")
+			u64(b, 0)
+			str(b, "mn")
+			str(b, "mv")
+			u64(b, 0)
+			u64(b, 0)
+			u64(b, 0)
+			if idx == 1 {
+				u64(b, 0)
+			}
+			u64(b, 1)
+			str(b, "k")
+			u64(b, claimed)
+			cases = append(cases, tc{fmt.Sprintf("working-memory index %d entry count %d", idx, claimed), b.Bytes()})
+		}
+	}
+	for _, c := range cases {
+		var err error
+		delta := replayAllocDelta(func() {
+			func() {
+				defer func() { recover() }()
+				_, err = NewKnowledgeLibrary().LoadKnowledgeBaseFromReader(bytes.NewReader(c.in), true)
+			}()
+		})
+		if delta > 64*uint64(len(c.in))+1<<20 {
+			t.Fatalf("CONFIRMED: LoadKnowledgeBaseFromReader allocated %d bytes for a %d-byte stream (%s; err=%v)", delta, len(c.in), c.name, err)
+		}
+	}
+}
